@@ -13,7 +13,8 @@ META = {
                   'need NOT lie inside the limits): accept_sound / validate_sound (an accepted value lies in the declared value set), '
                   'import_denotes + validate_denotes = accept_denotes (the JSON value stands for a Python value v - no string taken as '
                   'a number, no fraction truncated, canonical base64, equal lengths - and the accepted value denotes v: numerically '
-                  'equal or clamped from inside the documented tolerance, element-wise, key-wise, members not offered taken from '
+                  'equal or clamped from inside the documented tolerance - for a scaled type one scale beyond the GRID VALUES of its limits, '
+                  'the interval the datainfo describes (fd5b705) -, element-wise, key-wise, members not offered taken from '
                   'previous and validated), accept_total / validate_total / import_total / call_total (only bad-value errors), '
                   'validate_idem + validate_canon = revalidate_unchanged (hypothesis GridExact), revalidate_unchanged_partial and '
                   'call_idem_of_snapIdem (validating / converting an already validated / converted value returns it unchanged, from the '
